@@ -61,6 +61,15 @@ fn gen(seed: u64, idx: u64, _tier: Tier) -> Plan {
     // faults (delays, duplicates, spurious polls, stalled tasks) flow during start-up and, in some
     // runs, during the first part of the load; liveness is judged for requests sent afterwards
     plan.world.faults_until_ms = *rng.pick(&[25u64, 25, 400, 1500]);
+    {
+        // (closed-loop clients run on after their start step: spread the clock steps over the load)
+        let horizon_us = (20 + plan.world.faults_until_ms + rounds as u64 * 1100) * 1000;
+        if rng.chance(1, 4) {
+            for _ in 0..1 + rng.below(2) {
+                plan.step(25_000 + rng.below(horizon_us - 25_000), Action::WallStepMs(*rng.pick(&[-3_600_000i64, -61_000, -1000, -1, 1, 999, 1000, 61_000, 86_400_000])));
+            }
+        }
+    }
     plan.world.horizon_ms = 20 + plan.world.faults_until_ms + rounds as u64 * 1100 + 300;
     plan
 }
